@@ -59,7 +59,7 @@ func c17SP() *saml2.SAMLServiceProvider {
 	return sp
 }
 
-var c17Ops = []string{"SigningContext", "BuildAuthRequest", "BuildLogoutRequestDocument", "BuildLogoutResponseDocument", "BuildAuthURLRedirect", "ValidateEncodedResponse(A)", "ValidateEncodedResponse(B)", "RetrieveAssertionInfo(A)", "Metadata", "ValidateLogoutRequest", "GetSigningCertBytes", "BuildAuthBodyPost(relay-one)", "BuildAuthBodyPost(relay-two)", "BuildAuthURL(relay-one)", "BuildLogoutBodyPost", "BuildLogoutResponseBodyPost", "BuildLogoutURLRedirect", "ValidateLogoutResponse", "DecodeUnverifiedBaseResponse", "ValidateEncodedResponse(E)", "ValidateEncodedResponse(X)"}
+var c17Ops = []string{"SigningContext", "BuildAuthRequest", "BuildLogoutRequestDocument", "BuildLogoutResponseDocument", "BuildAuthURLRedirect", "ValidateEncodedResponse(A)", "ValidateEncodedResponse(B)", "RetrieveAssertionInfo(A)", "Metadata", "ValidateLogoutRequest", "GetSigningCertBytes", "BuildAuthBodyPost(relay-one)", "BuildAuthBodyPost(relay-two)", "BuildAuthURL(relay-one)", "BuildLogoutBodyPost", "BuildLogoutResponseBodyPost", "BuildLogoutURLRedirect", "ValidateLogoutResponse", "DecodeUnverifiedBaseResponse", "ValidateEncodedResponse(E)", "ValidateEncodedResponse(X)", "ValidateEncodedResponse(D)", "ValidateEncodedResponse(D2)"}
 
 var (
 	c17Once                        sync.Once
@@ -69,6 +69,8 @@ var (
 	// a Response-signed message whose bearer confirmation expired a minute before the SP clock
 	// (its Conditions are still valid): rejected, whatever else is being validated meanwhile
 	c17MsgX, c17ErrX string
+	// two different DEFLATE-compressed messages (one Response-signed, one with two signed assertions)
+	c17MsgD, c17MsgD2, c17TupD, c17TupD2 string
 )
 
 func c17Init() {
@@ -98,6 +100,21 @@ func c17Init() {
 		c17MsgX = idp.RenderResponse(x)
 		_, rx := validateResponse(c17SP(), c17MsgX)
 		c17ErrX = rx.Err.Text
+		d1 := idp.DefaultResponse(1)
+		uniq(&d1, "c17d")
+		d1.Sign = idp.SignSpec{Key: "K3"}
+		d1.Layout.Deflate = true
+		c17MsgD = idp.RenderResponse(d1)
+		d2 := idp.DefaultResponse(2)
+		uniq(&d2, "c17dd")
+		for i := range d2.Assertions {
+			d2.Assertions[i].Sign = idp.SignSpec{Key: "K3"}
+		}
+		d2.Layout.Deflate = true
+		c17MsgD2 = idp.RenderResponse(d2)
+		rd, _ := validateResponse(c17SP(), c17MsgD)
+		rd2, _ := validateResponse(c17SP(), c17MsgD2)
+		c17TupD, c17TupD2 = oracle.FromResponse(rd).Key()+"true", oracle.FromResponse(rd2).Key()+"false"
 		ra, _ := validateResponse(c17SP(), c17MsgA)
 		rb, _ := validateResponse(c17SP(), c17MsgB)
 		c17TupA, c17TupB = oracle.FromResponse(ra).Key(), oracle.FromResponse(rb).Key()
@@ -154,8 +171,14 @@ func c17Do(sp *saml2.SAMLServiceProvider, op int) (o c17Obs) {
 		if err != nil {
 			o.Err = err.Error()
 		}
-	case "ValidateEncodedResponse(A)", "ValidateEncodedResponse(B)", "ValidateEncodedResponse(E)", "ValidateEncodedResponse(X)":
+	case "ValidateEncodedResponse(A)", "ValidateEncodedResponse(B)", "ValidateEncodedResponse(E)", "ValidateEncodedResponse(X)", "ValidateEncodedResponse(D)", "ValidateEncodedResponse(D2)":
 		m := c17MsgA
+		if strings.HasSuffix(c17Ops[op], "(D)") {
+			m = c17MsgD
+		}
+		if strings.HasSuffix(c17Ops[op], "(D2)") {
+			m = c17MsgD2
+		}
 		if strings.HasSuffix(c17Ops[op], "(X)") {
 			m = c17MsgX
 		}
@@ -427,6 +450,14 @@ func c17Judge(o c17Obs) string {
 		if o.Text != c17TupB+"false" {
 			return "validation result differs from the sequential one"
 		}
+	case "ValidateEncodedResponse(D)":
+		if o.Text != c17TupD {
+			return "validation result differs from the sequential one"
+		}
+	case "ValidateEncodedResponse(D2)":
+		if o.Text != c17TupD2 {
+			return "validation result differs from the sequential one"
+		}
 	default:
 		alone := c17Do(c17SP(), o.Op)
 		if alone.Text != o.Text {
@@ -466,6 +497,7 @@ func c17Scenarios(thorough bool) []c17Scenario {
 		{"BuildLogoutBodyPost || BuildLogoutResponseBodyPost;BuildLogoutURLRedirect", [][]int{{o("BuildLogoutBodyPost")}, {o("BuildLogoutResponseBodyPost"), o("BuildLogoutURLRedirect")}}},
 		{"Validate(E) || Validate(E)", [][]int{{o("ValidateEncodedResponse(E)")}, {o("ValidateEncodedResponse(E)")}}},
 		{"Validate(E) || Validate(A);Validate(E)", [][]int{{o("ValidateEncodedResponse(E)")}, {o("ValidateEncodedResponse(A)"), o("ValidateEncodedResponse(E)")}}},
+		{"Validate(compressed) || Validate(another compressed);Validate(compressed)", [][]int{{o("ValidateEncodedResponse(D)")}, {o("ValidateEncodedResponse(D2)"), o("ValidateEncodedResponse(D)")}}},
 		{"Validate(expired) || Validate(A)", [][]int{{o("ValidateEncodedResponse(X)")}, {o("ValidateEncodedResponse(A)")}}},
 		{"Validate(expired) || RetrieveAssertionInfo(A);Validate(expired)", [][]int{{o("ValidateEncodedResponse(X)")}, {o("RetrieveAssertionInfo(A)"), o("ValidateEncodedResponse(X)")}}},
 		{"3 threads: ValidateLogoutResponse || DecodeUnverifiedBaseResponse || ValidateLogoutRequest", [][]int{{o("ValidateLogoutResponse")}, {o("DecodeUnverifiedBaseResponse")}, {o("ValidateLogoutRequest")}}},
@@ -979,7 +1011,7 @@ func c17Run(r *mc.Run) {
 	if r.Thorough() {
 		bound = 3
 	}
-	r.Rule = "(a) E-SCHED: every interleaving with <= 2 (quick) / <= 3 (thorough) preemptions (unbounded for the first-use race) of 17 (thorough 19) scenarios of 2-3 managed goroutines x 1-2 operations out of 21 (incl. a Response with an encrypted assertion and a Response whose bearer confirmation has expired, which must be rejected whatever runs beside it) on one shared SP with a non-default algorithm and canonicaliser, on an overlay build whose scheduling points are the sync shim operations plus a yield before every statement touching a written package-level variable or written SAMLServiceProvider field; oracle: no deadlock/panic, every call returns what it returns alone on a fresh SP, SigningContext fully configured when observed. (b) E-BFS over call histories: all sequences up to depth 3 (quick) / 4 (thorough) over 11 operations incl. scribbling over the previous result (every field, slice element and map entry reachable from it, in place); deep reflective snapshot of the configuration unchanged, outcome equal to a fresh instance and to the outcome of the same call before any result was written to (package-level state shared by all instances), and every result handed out earlier still unchanged after every later call. (c) free-running -race pass of the same bodies (sampling; supporting). (d) the exported validators that take a decoded struct (Validate, VerifyAssertionConditions, ValidateDecodedLogoutRequest/Response) on every Response within one profile fault of conforming (1-2 assertions, C03's menu), on Responses with one time bound padded by whitespace (3 bounds x 4 paddings), and on 4 variants of each logout message: a deep reflective snapshot of the struct is unchanged by the call. non-trivial = an execution with at least one preemption, or a history of length >= 2; distinct = distinct schedule / history"
+	r.Rule = "(a) E-SCHED: every interleaving with <= 2 (quick) / <= 3 (thorough) preemptions (unbounded for the first-use race) of 18 (thorough 20) scenarios of 2-3 managed goroutines x 1-2 operations out of 23 (incl. two different DEFLATE-compressed Responses, a Response with an encrypted assertion and a Response whose bearer confirmation has expired, which must be rejected whatever runs beside it) on one shared SP with a non-default algorithm and canonicaliser, on an overlay build whose scheduling points are the sync shim operations plus a yield before every statement touching a written package-level variable or written SAMLServiceProvider field; oracle: no deadlock/panic, every call returns what it returns alone on a fresh SP, SigningContext fully configured when observed. (b) E-BFS over call histories: all sequences up to depth 3 (quick) / 4 (thorough) over 11 operations incl. scribbling over the previous result (every field, slice element and map entry reachable from it, in place); deep reflective snapshot of the configuration unchanged, outcome equal to a fresh instance and to the outcome of the same call before any result was written to (package-level state shared by all instances), and every result handed out earlier still unchanged after every later call. (c) free-running -race pass of the same bodies (sampling; supporting). (d) the exported validators that take a decoded struct (Validate, VerifyAssertionConditions, ValidateDecodedLogoutRequest/Response) on every Response within one profile fault of conforming (1-2 assertions, C03's menu), on Responses with one time bound padded by whitespace (3 bounds x 4 paddings), and on 4 variants of each logout message: a deep reflective snapshot of the struct is unchanged by the call. non-trivial = an execution with at least one preemption, or a history of length >= 2; distinct = distinct schedule / history"
 	r.Assume("scheduling points are sufficient only together with the race pass (c), which is sampling", "the overlay is regenerated from /repo's working tree on every run (instr report in evidence)")
 	if b, err := os.ReadFile(os.Getenv("VERIF_INSTR_REPORT")); err == nil {
 		var rep map[string]interface{}
